@@ -220,9 +220,8 @@ func (c *monC13) After(m *Machine, s *Step) *Violation {
 			if op.K != "smsremove" || !(okCode || okRec) {
 				return violation("C13", "sms-disabled-without-proof:"+op.K+":"+op.Src, "SMS 2FA of %q (number %q) was removed by %s with %q (recovery field %v); latest code for this browser %+v", pid, pre.SMSPhone, op.K, s.Secret, op.F, prevSMS)
 			}
-			if okCode {
-				prevSMS.consumed = true
-			}
+			// the remove page leaves the code in the session; it still proves possession of the
+			// number it was texted to (single use of SMS *login* codes is C12's subject)
 			m.flag("disabled:sms")
 		}
 		if dR && !dT && !(dS && post.SMSPhone != "") {
